@@ -3,7 +3,7 @@
 import re, os
 here = os.path.dirname(os.path.abspath(__file__))
 s = open(os.path.join(here, 'minimum.vspec')).read()
-s = s.replace('!ext_lt(self.deque@[self.cur_index as int], self.deque@[self.min_index as int])', '!ext_lt(self.deque@[self.MAXIDX as int], self.deque@[self.cur_index as int])')
+s = s.replace('!ext_lt(self.deque@[ci], self.deque@[self.min_index as int])', '!ext_lt(self.deque@[self.MAXIDX as int], self.deque@[ci])')
 for a, b in [('Minimum', 'Maximum'), ('find_min_index', 'find_max_index'), ('min_index', 'max_index'), ('MAXIDX', 'max_index'), ('is_least', 'is_greatest'),
              ('lemma_least_rot', 'lemma_greatest_rot'), ('all_padp', 'all_padn'), ('padp(', 'padn('), ('INF()', 'NEG_INF()'), ('low_spec', 'high_spec'),
              ('if input < self.deque', 'if input > self.deque'), ('rv(out) <= rv(input)', 'rv(out) >= rv(input)')]:
